@@ -472,7 +472,7 @@ class SrcEdit:
                               if (frag := next_frag(lines, del_end_ln, 0, new_del_end_ln, 0, True, True)) else
                               new_del_end_ln)
 
-            elif del_end_col == len(lines[del_end_ln]):
+            elif del_end_col == len(lines[del_end_ln]) and del_end_ln < bound_end_ln:  # if already on last line of bound then there is no trailing space to delete
                 new_del_end_ln = min(bound_end_ln, del_end_ln + postspace + 1)  # account for not ending on newline
                 del_end_ln = (frag.ln - 1
                               if (frag := next_frag(lines, del_end_ln, del_end_col, new_del_end_ln, 0, True, True)) else
